@@ -259,6 +259,78 @@ class ExternalVariableCollector(NodeVisitor):
         self.assigned.add(node.arg)
 
 
+def _defining_class(fn):
+    """Name of the class in whose body fn (or the function enclosing it) is
+    defined, according to its qualified name, if any."""
+    parts = fn.__qualname__.split(".")[:-1]
+    for i in range(len(parts) - 1, -1, -1):
+        if parts[i] == "<locals>":
+            continue
+        if i + 1 < len(parts) and parts[i + 1] == "<locals>":
+            # A function: look further out
+            continue
+        return parts[i]
+    return None
+
+
+class _PrivateNameMangler(NodeTransformer):
+    """Apply the name mangling of class bodies (__x becomes _Class__x).
+
+    The source of a method is compiled again outside its class, where
+    Python would not mangle the private names it uses.
+    """
+
+    def __init__(self, classname):
+        self.prefix = "_" + classname.lstrip("_")
+
+    def _mangle(self, name):
+        if (
+            isinstance(name, str)
+            and name.startswith("__")
+            and not name.endswith("__")
+            and "." not in name
+        ):
+            return self.prefix + name
+        return name
+
+    def visit_Name(self, node):
+        node.id = self._mangle(node.id)
+        return node
+
+    def visit_Attribute(self, node):
+        self.generic_visit(node)
+        node.attr = self._mangle(node.attr)
+        return node
+
+    def visit_arg(self, node):
+        self.generic_visit(node)
+        node.arg = self._mangle(node.arg)
+        return node
+
+    def visit_FunctionDef(self, node):
+        self.generic_visit(node)
+        node.name = self._mangle(node.name)
+        return node
+
+    visit_AsyncFunctionDef = visit_FunctionDef
+
+    def visit_ClassDef(self, node):
+        # A nested class mangles with its own name
+        node.name = self._mangle(node.name)
+        return node
+
+    def visit_Global(self, node):
+        node.names = [self._mangle(name) for name in node.names]
+        return node
+
+    visit_Nonlocal = visit_Global
+
+    def visit_ExceptHandler(self, node):
+        self.generic_visit(node)
+        node.name = self._mangle(node.name)
+        return node
+
+
 class SimpleVariableCollector(NodeVisitor):
     def __init__(self, tree):
         self.vars = set()
@@ -1239,6 +1311,11 @@ def transform(fn, proceed, to_instrument=True, set_conformer=True):
             f"transform() only works on functions defined with def (got {fn})"
         )
     tree.decorator_list = []
+    classname = _defining_class(fn)
+    if classname is not None and classname.strip("_"):
+        body_name = tree.name
+        tree = _PrivateNameMangler(classname).visit(tree)
+        tree.name = body_name
 
     fnsym = _gensym()
     glb = fn.__globals__
